@@ -47,7 +47,9 @@ WCase(p) ==
    calls |-> <<[op |-> "load"], [op |-> "tags", it |-> 0], [op |-> "next", it |-> 0],
                [op |-> "clone", it |-> 0, to |-> 1]>>
              \o <<[op |-> "last", it |-> 0], [op |-> "count", it |-> 0], [op |-> "clone", it |-> 0, to |-> 3], [op |-> "nth", it |-> 3, n |-> 1],
-                  [op |-> "nth", it |-> 3, n |-> 0], [op |-> "nth", it |-> 3, n |-> 5], [op |-> "next", it |-> 3]>>
+                  [op |-> "nth", it |-> 3, n |-> 0], [op |-> "nth", it |-> 3, n |-> 5], [op |-> "next", it |-> 3],
+                  \* overshooting skip from a position that is not the end, then next(): the iterator must stay exhausted
+                  [op |-> "tags", it |-> 4], [op |-> "nth", it |-> 4, n |-> 7], [op |-> "next", it |-> 4], [op |-> "count", it |-> 4]>>
              \o Rep([op |-> "next", it |-> 0], n)
              \o Rep([op |-> "next", it |-> 1], n)
              \o <<[op |-> "module_tags", it |-> 2]>> \o Rep([op |-> "next", it |-> 2], n),
